@@ -70,3 +70,17 @@ Example C07_nonvacuous :
   tl_npts (calendar_timeline UDay (ord_of 2020 2 27) (ord_of 2020 3 5) 2) = 4%nat /\
   civil_of_ord (nth 1 (tl_dates (calendar_timeline UDay (ord_of 2020 2 27) (ord_of 2020 3 5) 2)) 0%Z) = (2020, 2, 29)%Z.
 Proof. vm_compute. repeat split; reflexivity. Qed.
+
+(* clauses that the faithful model REFUTES (each is a listed finding whose witness program replays the same input on the implementation) *)
+Theorem C07_year_grid_from_mid_year_date_refuted :
+  let tl := year_calendar_timeline (ord_of 2004 12 31) (ord_of 2006 12 31) 1 in tl_npts tl = 2%nat /\ last (tl_dates tl) 0%Z <> ord_of 2006 12 31.
+Proof. exact year_grid_mid_year_refuted. Qed.
+Theorem C07_date_start_plus_one_year_refuted : tl_npts (year_calendar_timeline (ord_of 2000 1 1) (ord_of 2000 1 1 + 365) 1) = 1%nat.
+Proof. exact date_start_plus_year_refuted. Qed.
+Theorem C07_module_start_offset_not_converted_refuted : abstvec_numeric UWeek UDay [0; 1; 2]%Q 2 0 = [2.000000; 9.000000; 16.000000]%Q.
+Proof. exact start_offset_not_converted_refuted. Qed.
+Theorem C07_month_sim_module_axis_refuted :
+  abstvec_days [ord_of 2000 1 1; ord_of 2000 2 1; ord_of 2000 3 1] (ord_of 2000 1 1) UMonth <> tvec_of 3 1.
+Proof. exact month_sim_module_axis_refuted. Qed.
+Print Assumptions C07_year_grid_from_mid_year_date_refuted. Print Assumptions C07_date_start_plus_one_year_refuted.
+Print Assumptions C07_module_start_offset_not_converted_refuted. Print Assumptions C07_month_sim_module_axis_refuted.
